@@ -660,6 +660,20 @@ func (U *Universe) emitDeclsWith(bundleDecls string) string {
 		b.WriteString(x)
 		b.WriteString("\n")
 	}
+	// character constants for the decomposition of literals (C19)
+	{
+		used := map[byte]bool{}
+		for _, s := range U.strOrder {
+			for i := 0; i < len(s); i++ {
+				used[s[i]] = true
+			}
+		}
+		for c := 0; c < 256; c++ {
+			if used[byte(c)] {
+				fmt.Fprintf(&b, "(declare-const s.ch%d Str)\n", c)
+			}
+		}
+	}
 	// string literals
 	if len(U.strOrder) > 0 {
 		for _, s := range U.strOrder {
@@ -931,4 +945,20 @@ func (U *Universe) boxTerm(t types.Type, x string) string {
 	b := fmt.Sprintf("(%s %s)", U.boxSym(t), x)
 	U.sideFact(fmt.Sprintf("(and (= (dyn %s) %s) (= (%s %s) %s) (inv.Any %s))", b, tagSym(U.typeKey(t)), U.unboxSym(t), b, x, b))
 	return b
+}
+
+// strDecompFacts: every string literal equals the left-nested concatenation of its characters.
+func (U *Universe) strDecompFacts() string {
+	var b strings.Builder
+	for _, s := range U.strOrder {
+		if len(s) == 0 {
+			continue
+		}
+		t := fmt.Sprintf("s.ch%d", s[0])
+		for i := 1; i < len(s); i++ {
+			t = fmt.Sprintf("(s.cat %s s.ch%d)", t, s[i])
+		}
+		fmt.Fprintf(&b, "(assert (= %s %s))\n", U.strlits[s], t)
+	}
+	return b.String()
 }
